@@ -102,7 +102,12 @@ class TaskScheduler(object):
             # items waiting to be flushed, or computed).
             while len(self._tasks) > init_num_tasks:
                 if len(self._tasks) > _debug_options.MAX_TASK_STACK_SIZE:
+                    # reset() forgets the active task too, but we may be running nested inside
+                    # a synchronous call made by a task that is still executing (and that may
+                    # handle this error): it stays the active task until its step ends.
+                    active_task = self.active_task
                     self.reset()
+                    self.active_task = active_task
                     debug.dump(self)
                     raise RuntimeError(
                         "Number of scheduled tasks exceeded maximum threshold."
